@@ -62,6 +62,18 @@ func (c *sconn) request(data []byte, tm time.Duration) (status int, adv bool, ti
 	}
 }
 
+// checkClosed notices a connection that the server has closed meanwhile (e.g. because its session was
+// torn down through another connection): the model says such a connection no longer exists.
+func (c *sconn) checkClosed() {
+	if c.closed {
+		return
+	}
+	c.rdConn.SetReadDeadline(time.Now().Add(3 * time.Millisecond))
+	if _, err := c.rr.br.Peek(1); err != nil && !isTimeout(err) {
+		c.closed = true
+	}
+}
+
 func (c *sconn) send(data []byte, tm time.Duration) {
 	if c.closed {
 		return
@@ -265,6 +277,7 @@ func runScenario(port int, cfg childCfg, sc *scenario, tm time.Duration, snapsho
 	for si := range sc.steps {
 		st := &sc.steps[si]
 		c := conns[st.conn]
+		c.checkClosed()
 		wasClosed := c.closed
 		switch st.kind {
 		case 0:
